@@ -18,14 +18,16 @@ Reusable API (all functions honour common.REPO, i.e. VERIF_REPO):
       pending = command string (bytes, e.g. b"CMD POWERON") or None; `before` = list of (pending, critical, octets) steps run
       back to back in the same process first (same stack - how a stale value of an uninitialised variable is shown).
       outcome in {'no-effect' (ignored or empty read), 'no-pending', 'error' (mismatch or rejected status: -EIO and FSM
-      termination), 'accepted:<poweron|poweroff|echo|other>', 'accepted:measure', 'crash:null-deref', 'crash:<other>'}
+      termination; since 35bc7c1 also a reply without a numeric status), 'accepted:<poweron|poweroff|echo|other>',
+      'accepted:measure', 'accepted:measure-unparsed', 'crash:null-deref', 'crash:uninit' (MSan), 'crash:other'}
   c_ctrl_rsp_many(cases) -> same for a list of (pending, critical, octets) with one fork per case
   c_ctrl_cmds(cmd) -> dict(rc, queue=[(critical, bytes)], sent=[bytes]) for one trxcon_phyif_cmd given as a tuple
       ('reset',) ('poweron',) ('poweroff',) ('measure', arfcn) ('setfreq_h0', arfcn) ('setfreq_h1', hsn, maio, [arfcn..])
       ('setslot', tn, pchan) ('setta', ta) ('unknown', type)
   ctrl_malformed_campaign(ctx, n) -> list of (key, witness) - the C14 oracle for the TRXC response parser:
       generated valid + malformed responses with and without a pending command on the ASan/UBSan build (every case forked),
-      the stale-stack witnesses for the uninitialised reads, and (when clang is present) the same cases under MSan.
+      the stale-stack differential (every case run after two different earlier datagrams) and, when clang is present, MSan.
+      Model-independent; [] on the repaired tree (35bc7c1), the four keys come back if the repair is reverted.
 """
 import errno
 import os
@@ -338,8 +340,11 @@ def classify_rsp(o):
     if rc == "EIO" and o["term"] == 3:
         return "error"
     if rc == "OK" and o["term"] == -1 and o["queue_len"] == 0 and o["timer_del"] == 1:
+        # the MEASURE branch is the only one that leaves the FSM in RSP_WAIT; its call-back may return before the ARFCN lookup
+        if (o["powered_up"], o["state"]) == (1, 3):
+            return "accepted:measure" if o["f2a_called"] else "accepted:measure-unparsed"
         if o["f2a_called"]:
-            return "accepted:measure" if o["state"] == 3 and o["powered_up"] == 1 else "unclassified"
+            return "unclassified"
         return {(1, 2): "accepted:poweron", (0, 1): "accepted:poweroff", (1, 1): "accepted:echo", (1, 0): "accepted:other"}.get(
             (o["powered_up"], o["state"]), "unclassified")
     return "unclassified"
@@ -363,7 +368,7 @@ def rsp_wire(o):
             return [20, 3, o["f2a_arg"], 1, o["arfcn"], o["dbm"]]
         return [20, 3, o["f2a_arg"], 0]
     if oc.startswith("accepted:"):
-        return [20, {"poweron": 1, "poweroff": 2, "echo": 4, "other": 5}[oc[9:]]]
+        return [20, {"poweron": 1, "poweroff": 2, "echo": 4, "other": 5, "measure-unparsed": 6}[oc[9:]]]
     return [99]
 
 
@@ -548,52 +553,71 @@ def _show_case(case):
                 datagram_text=bytes(d).decode("latin-1"))
 
 
-STALE_RESP = [((b"CMD SETTA 3", False, list(b"RSP SETTA 7 3\0")), (b"CMD SETTA 3", False, list(b"RSP SETTA 0 3\0")))]
-STALE_TEXT = ((None, False, list(b"XXXXXXXXXXXXXX947000 -33\0")), (None, False, list(b"XXXXXXXXXXXXXX936000 -44\0")))
-STALE_MEAS = ((b"CMD MEASURE 947000", True, list(b"RSP MEASURE 0 947000 -33\0")), (b"CMD MEASURE 936000", True, list(b"RSP MEASURE 0 936000 -44\0")))
+# predecessor pairs for the stale-stack differential: two earlier datagrams that are both legitimate and leave different remains
+# on the stack of the socket call-back.  (key, first, second), tried in this order; the first pair that changes the outcome names the defect.
+STALE = [
+    ("c14-c-measure-offset",                                      # ignored datagrams: differ only in buf[] beyond octet 14
+     (None, False, list(b"XXXXXXXXXXXXXX947000 -33\0")), (None, False, list(b"XXXXXXXXXXXXXX936000 -44\0"))),
+    ("c14-c-ctrl-uninit-resp",                                   # differ in the value `resp` is left with (7 / 0)
+     (b"CMD SETTA 3", False, list(b"RSP SETTA 7 3\0")), (b"CMD SETTA 3", False, list(b"RSP SETTA 0 3\0"))),
+    ("c14-c-measure-uninit-result",                               # differ in the freq10 / dbm a MEASURE reply leaves behind
+     (b"CMD MEASURE 947000", True, list(b"RSP MEASURE 0 947000 -33\0")), (b"CMD MEASURE 936000", True, list(b"RSP MEASURE 0 936000 -44\0"))),
+]
+_DIFF_FIELDS = ("outcome", "rc", "f2a_arg", "rsp_called", "arfcn", "dbm")
 
 
-def stale_stack_witness(case, what):
-    """Shows on the ASan build that the outcome of `case` depends on what an EARLIER, unrelated datagram left on the stack:
-    the same (pending, datagram) is run after two different predecessors in the same process; differing observations mean
-    a value the call never wrote was read.  what: 1 resp, 2 MEASURE text beyond the datagram, 3 freq10, 4 dbm.
-    -> None | dict(first=..., second=..., observed_first=..., observed_second=...)"""
-    if what == 1:
-        pre = STALE_RESP[0]
-    elif what == 2:
-        pre = STALE_TEXT
-    else:
-        pre = STALE_MEAS
-    toks = run_lines([rsp_line([pre[0], case]), rsp_line([pre[1], case])])
-    obs = [parse_rsp_obs(t, 2)[-1] for t in toks]
-    keys = ("outcome", "rc", "f2a_arg", "rsp_called", "arfcn", "dbm")
-    a = {k: obs[0].get(k) for k in keys}
-    b = {k: obs[1].get(k) for k in keys}
-    if a != b:
-        return dict(predecessor_first=_show_case(pre[0]), predecessor_second=_show_case(pre[1]), observed_first=a, observed_second=b)
-    return None
+def stale_stack_differential(cases):
+    """For every case: run it in one process directly after each of two different, legitimate earlier datagrams (STALE pairs).
+    Code that only reads what it has written gives the same observation both times; a difference means a value left behind by
+    the EARLIER datagram was read (uninitialised variable / octets beyond the received ones).  Model-independent.
+    -> list (per case) of None | (key, dict(predecessor_first, predecessor_second, observed_first, observed_second))"""
+    lines = []
+    for c in cases:
+        for _, a, b in STALE:
+            lines.append(rsp_line([a, c], fork=False))
+            lines.append(rsp_line([b, c], fork=False))
+    toks = run_lines(lines)
+    out = []
+    per = 2 * len(STALE)
+    for k, c in enumerate(cases):
+        hit = None
+        for j, (key, a, b) in enumerate(STALE):
+            oa = parse_rsp_obs(toks[per * k + 2 * j], 2)[-1]
+            ob = parse_rsp_obs(toks[per * k + 2 * j + 1], 2)[-1]
+            fa = {f: oa.get(f) for f in _DIFF_FIELDS}
+            fb = {f: ob.get(f) for f in _DIFF_FIELDS}
+            if fa != fb and hit is None:
+                hit = (key, dict(predecessor_first=_show_case(a), predecessor_second=_show_case(b), observed_first=fa, observed_second=fb))
+        out.append(hit)
+    return out
 
 
-UNINIT_KEYS = {1: "c14-c-ctrl-uninit-resp", 2: "c14-c-measure-offset", 3: "c14-c-measure-uninit-result", 4: "c14-c-measure-uninit-result"}
+def stale_stack_witness(case, what=None):
+    """single-case form of stale_stack_differential: None | (key, witness)"""
+    return stale_stack_differential([case])[0]
 
 
 def ctrl_malformed_campaign(ctx, n, use_msan=True):
-    """C14 oracle of trx_ctrl_read_cb: n generated replies (valid + malformed) with and without a pending command.
-    Returns [(key, witness)] - at most 3 witnesses per key:
+    """C14 oracle of trx_ctrl_read_cb on the real code: n generated replies (valid + malformed) with and without a pending command.
+    Every detection is made on the implementation, independently of the model (so a defect that returns is reported whatever the model says).
+    Returns [(key, witness)] - at most 3 witnesses per key; [] on a tree without these defects:
       c14-c-ctrl-null-deref        the forked ASan/UBSan run died with SEGV at a tiny address (sscanf(p + 1) with p = NULL)
-      c14-c-ctrl-uninit-resp       `resp` read uninitialised (stale-stack differential on the ASan build and/or MSan report)
-      c14-c-measure-offset         MEASURE text taken from buf + 14 beyond the received octets (stale-stack differential / MSan)
-      c14-c-measure-uninit-result  freq10 / dbm of trx_if_measure_rsp_cb used without having been assigned
+      c14-c-ctrl-uninit-resp       the accept/reject decision depends on the previous datagram's status (stale-stack differential), or an
+                                   MSan use-of-uninitialized-value report inside trx_ctrl_read_cb
+      c14-c-measure-offset         the MEASURE result depends on octets of an earlier datagram beyond the current one (differential / MSan)
+      c14-c-measure-uninit-result  freq10 / dbm of trx_if_measure_rsp_cb taken over from an earlier reply (differential / MSan)
       c14-c-ctrl-crash-other       any other sanitizer report
-      c14-c-ctrl-model-disagrees   the extracted model and the real code differ on a case (the proofs then say nothing about it)"""
+      c14-c-ctrl-model-disagrees   the extracted model and the real code differ on a case (the proofs then say nothing about that case)"""
     rng = ctx.rng.fork("ctrl-campaign")
     cmds = sample_cmds(rng, 50)
     cobs = [parse_cmd_obs(t) for t in run_lines([cmd_line(c, fork=(c[0] == "setslot")) for c in cmds])]
     texts = sorted(set(q[1] for o in cobs if "queue" in o for q in o["queue"]))
     fixed = [(b"CMD POWERON", True, list(b"RSP POWERON")), (b"CMD POWERON", True, list(b"RSP POWERON\0")), (b"CMD ECHO", True, list(b"RSP ")),
              (b"CMD POWERON", True, list(b"RSP POWERON x\0")), (b"CMD POWERON", True, list(b"RSP POWERON \0")),
+             (b"CMD SETTA 5", False, list(b"RSP SETTA x 5\0")),
              (b"CMD MEASURE 935200", True, list(b"RSP MEASURE 0")), (b"CMD MEASURE 935200", True, list(b"RSP MEASURE 0\0")),
-             (b"CMD MEASURE 935200", True, list(b"RSP MEASURE 0 935200\0")), (b"CMD MEASURE 935200", True, list(b"RSP MEASURE 0 x\0"))]
+             (b"CMD MEASURE 935200", True, list(b"RSP MEASURE 0 935200\0")), (b"CMD MEASURE 935200", True, list(b"RSP MEASURE 0 x\0")),
+             (b"CMD MEASURE 935200", True, list(b"RSP MEASURE 00 935200 -77\0")), (b"CMD MEASURE 935200", True, list(b"RSP MEASURE 0 935200 -77\0"))]
     cases = fixed + rsp_cases(rng, max(0, n - len(fixed)), texts, malformed_share=(3, 4))
     obs = c_ctrl_rsp_many(cases)
     model = ctx.model("TrxIf", [m_rsp_line(c) for c in cases])
@@ -603,10 +627,9 @@ def ctrl_malformed_campaign(ctx, n, use_msan=True):
         found.setdefault(key, [])
         if len(found[key]) < 3:
             found[key].append(wit)
-            return True
-        return False
 
-    for case, o, m in zip(cases, obs, model):
+    alive = []
+    for k, (case, o, m) in enumerate(zip(cases, obs, model)):
         w = rsp_wire(o)
         ctx.count("ctrl-campaign:" + o["outcome"])
         if o["outcome"].startswith("crash:"):
@@ -614,26 +637,38 @@ def ctrl_malformed_campaign(ctx, n, use_msan=True):
             if len(found.get(key, [])) < 3:
                 sym = c_ctrl_rsp(case[0], case[2], critical=case[1])      # re-run with the symbolizer for the source line
                 add(key, dict(case=_show_case(case), sanitizer=sym.get("crash") or o["crash"], model=m))
-        if m[0] == 80:
-            key = UNINIT_KEYS.get(m[1], "c14-c-ctrl-uninit-resp")
-            if len(found.get(key, [])) < 3:
-                st = stale_stack_witness(case, m[1])
-                if st is not None:
-                    add(key, dict(case=_show_case(case), how="same call after two different earlier datagrams (same process, ASan build)", **st))
-        elif w != m:
+        else:
+            # only replies that get past the signature check with a command pending reach the code in question
+            if case[0] is not None and bytes(case[2][:4]) == b"RSP ":
+                alive.append(k)
+        if w != m and m[0] != 80:
             add("c14-c-ctrl-model-disagrees", dict(case=_show_case(case), impl=w, model=m, sanitizer=o.get("crash")))
-    # MemorySanitizer on the cases the model flags (and a sample of the others): direct reports of uninitialised reads
+    # stale-stack differential on every case that reaches the parser and does not crash
+    diffs = stale_stack_differential([cases[k] for k in alive])
+    ctx.count("ctrl-campaign:differential-cases", len(alive))
+    for k, hit in zip(alive, diffs):
+        if hit is not None:
+            add(hit[0], dict(case=_show_case(cases[k]), how="same call directly after two different earlier datagrams (same process, ASan build)", **hit[1]))
+            ctx.count("ctrl-campaign:differs:" + hit[0])
+    # MemorySanitizer: direct reports of uninitialised reads
     if use_msan and build_harness(ctx, msan=True):
-        idx = [k for k, m in enumerate(model) if m[0] == 80][:60] + [k for k, m in enumerate(model) if m[0] not in (80, 90)][:40]
+        idx = alive[:40] + alive[40::max(1, len(alive) // 80)][:80]
         mobs = c_ctrl_rsp_many([cases[k] for k in idx], msan=True)
         for k, o in zip(idx, mobs):
-            m = model[k]
-            if o["outcome"] == "crash:uninit":
-                key = UNINIT_KEYS.get(m[1], "c14-c-ctrl-uninit-resp") if m[0] == 80 else "c14-c-ctrl-model-disagrees"
-                if len([w for w in found.get(key, []) if "msan" in w]) < 1:
-                    sym = c_ctrl_rsp(cases[k][0], cases[k][2], critical=cases[k][1], msan=True)
-                    found.setdefault(key, []).append(dict(case=_show_case(cases[k]), msan=sym.get("crash") or o["crash"], model=m))
             ctx.count("ctrl-campaign-msan:" + o["outcome"])
+            if o["outcome"].startswith("crash:"):
+                sym = c_ctrl_rsp(cases[k][0], cases[k][2], critical=cases[k][1], msan=True)
+                txt = sym.get("crash") or o["crash"]
+                if o["outcome"] == "crash:null-deref":
+                    key = "c14-c-ctrl-null-deref"
+                elif o["outcome"] != "crash:uninit":
+                    key = "c14-c-ctrl-crash-other"
+                elif "trx_if_measure_rsp_cb" in txt:
+                    key = "c14-c-measure-offset" if len(cases[k][2]) < 14 else "c14-c-measure-uninit-result"
+                else:
+                    key = "c14-c-ctrl-uninit-resp"
+                if not any("msan" in w for w in found.get(key, [])):
+                    found.setdefault(key, []).append(dict(case=_show_case(cases[k]), msan=txt, model=model[k]))
     else:
-        ctx.note("ctrl_malformed_campaign: no MSan build (clang missing); uninitialised reads shown by the stale-stack differential only")
+        ctx.note("ctrl_malformed_campaign: no MSan build (clang missing); uninitialised reads are looked for by the stale-stack differential only")
     return [(k, w) for k in sorted(found) for w in found[k]]
